@@ -1014,8 +1014,14 @@ def deserialize_value_info_proto(
     if proto.HasField("type"):
         # An entry without a type must not erase the type and shape the value already has
         # (e.g. those an initializer takes from its tensor)
-        value.shape = deserialize_type_proto_for_shape(proto.type)
-        value.type = deserialize_type_proto_for_type(proto.type)
+        type_ = deserialize_type_proto_for_type(proto.type)
+        shape = deserialize_type_proto_for_shape(proto.type)
+        if type_ is not None:
+            value.shape = shape
+            value.type = type_
+        elif shape is not None:
+            # A type that names no element type must not erase the type the value already has
+            value.shape = shape
     metadata_props = deserialize_metadata_props(proto.metadata_props)
     if metadata_props is not None:
         value.metadata_props.update(metadata_props)
